@@ -327,3 +327,35 @@ def _can_reach(succs, target, avoid=()):
                 seen.add(p)
                 st.append(p)
     return seen
+
+
+class AuditMatcher:
+    """Matches inventory sites against an audited table keyed `function|kind`.  A site whose function
+    is unknown to the table is matched to the unique unused entry of the same kind whose function no
+    longer has any site (a renamed / moved private function), so that a rename does not raise an alarm
+    while a genuinely new construct (same kind, old function still there) does."""
+
+    def __init__(self, audited, sites):
+        self.audited = audited
+        self.used = {}
+        self.fns_now = {s.key.split("|", 1)[0] for s in sites}
+        self.renamed = {}
+
+    def lookup(self, site):
+        key = site.key
+        if key in self.audited:
+            k = key
+        else:
+            fn, kind = key.split("|", 1)
+            cands = [a for a in self.audited if a.split("|", 1)[1] == kind and a.split("|", 1)[0] not in self.fns_now
+                     and self.used.get(a, 0) < self.audited[a][0]]
+            if self.renamed.get(fn) in [c.split("|", 1)[0] for c in cands]:
+                cands = [c for c in cands if c.split("|", 1)[0] == self.renamed[fn]]
+            if len({c.split("|", 1)[0] for c in cands}) != 1:
+                return None, key
+            k = cands[0]
+            self.renamed[fn] = k.split("|", 1)[0]
+        self.used[k] = self.used.get(k, 0) + 1
+        if self.used[k] <= self.audited[k][0]:
+            return self.audited[k], k
+        return None, key
